@@ -458,3 +458,7 @@ Proof.
   unfold msg_recreate, msg_reserve. rewrite b_msg_reserve_clears, map_const_false.
   rewrite map_length, combine_length, map_length, Nat.min_id. reflexivity.
 Qed.
+
+(* ---- assignment from a foreign-allocator string keeps every byte, embedded NULs included ---- *)
+Lemma str_assign_foreign_exact bs : str_assign_foreign bs = bs.
+Proof. unfold str_assign_foreign. rewrite b_foreign_assign_len. reflexivity. Qed.
